@@ -47,6 +47,7 @@ class St:
         # which variant of a repaired side condition the implementation is (False = as read at bbeff32, True = repaired):
         # decided by the finding-class probe of each family; case texts carry @name@ placeholders resolved in coq_correspondence
         self.flags = {}
+        self.by_dtype = {}       # family -> dtype -> [instances, fired]
 
     def flag_text(self, text):
         import re
@@ -61,8 +62,19 @@ class St:
         self.meta[stream].append(meta)
 
 
+def dtype_of(params):
+    """element type of the instance's floating-point data (for the per-dtype counts of the evidence)"""
+    if isinstance(params, dict):
+        for k in ("dtype", "xdtype"):
+            if params.get(k) in ("float16", "float32", "float64"):
+                return params[k]
+        if "in_dtype" in params or "shape" in params and "axis" in params and "opset" in params:
+            return params.get("in_dtype", "float16")          # softmax upcast removal: float16 data by construction
+    return "float32"
+
+
 def probe(st, fam, g, fn, params, *, expect=None, finding=None, fused_ops=(), cls=None, scale=1.0, slack=1.0,
-          runner=None, post=None):
+          runner=None, post=None, out=None):
     """Apply the real fusion `fn` (ir.Model -> count, in place) to the instance and observe the property.
 
     expect: True/False = the rule must / must not fire on this instance (correspondence with the model of `check`);
@@ -73,6 +85,8 @@ def probe(st, fam, g, fn, params, *, expect=None, finding=None, fused_ops=(), cl
     ctx = st.ctx
     st.stat(fam, "instances")
     ctx.case(cls if cls is not None else (fam,))
+    dt_ = dtype_of(params)
+    st.by_dtype.setdefault(fam, {}).setdefault(dt_, [0, 0])[0] += 1
     try:
         m = g.model()
     except Exception as e:  # an instance this builder cannot express as a valid model: not an observation
@@ -103,9 +117,12 @@ def probe(st, fam, g, fn, params, *, expect=None, finding=None, fused_ops=(), cl
     if fused_ops:
         fired = any(find(m2, o) for o in fused_ops) and fired
     st.stat(fam, "fired" if fired else "not_fired")
+    if fired:
+        st.by_dtype[fam][dt_][1] += 1
     if post is not None:
         m2 = post(m2)
     bad = None
+    after = None
     try:
         for f, b in zip(feeds, before):
             after = run(m2, f)
@@ -115,6 +132,8 @@ def probe(st, fam, g, fn, params, *, expect=None, finding=None, fused_ops=(), cl
                 break
     except Exception as e:
         bad = f"rewritten model fails in onnxruntime: {str(e)[:220]}"
+    if out is not None:
+        out.update(bad=bad, feeds=feeds, before=before, after=after)
     if bad:
         report("outputs-differ", f"{params}: {bad}")
     if finding is None and expect is not None and fired != expect and not bad:
@@ -410,6 +429,9 @@ def fam_gelu(st):
             shape = [rng.randrange(1, 5) for _ in range(rank)]
             p = dict(variant=variant, dtype="float32", shape=shape, const_node=bool(rng.randrange(2)))
             probe(st, fam, M.gelu_model(p), fn, p, expect=True, fused_ops=(fused,), cls=(fam, rank, p["const_node"]), scale=2.5)
+            if i < 2:     # the same instance in float16 (half-precision constants: the matcher's tolerance decides, either outcome)
+                p16 = dict(p, dtype="float16")
+                probe(st, fam, M.gelu_model(p16), fn, p16, expect=None, fused_ops=(fused,), cls=(fam, rank, p["const_node"], "f16"), scale=2.5)
         # near misses: a changed constant / flipped operands must not be fused into the operator (or must still agree)
         nears = [dict(k=dict(half=0.25)), dict(k=dict(one=2.0)), dict(flip=True)]
         nears += [dict(k=dict(c=0.05)), dict(k=dict(s2pi=0.8)), dict(k=dict(three=2.0))] if variant == "tanh" else [dict(k=dict(sqrt2=1.5))]
@@ -736,7 +758,7 @@ def fam_matmul(st):
             attrs["transB"] = 1
         if mm == "FusedMatMul" and rng.randrange(2):
             attrs["alpha"] = 0.5
-        p = dict(dtype="float32", xshape=xs, yshape=ys, mm=mm, pos=0, perm=perm, attrs=attrs)
+        p = dict(dtype=pick(rng, ["float32", "float32", "float16"]), xshape=xs, yshape=ys, mm=mm, pos=0, perm=perm, attrs=attrs)
         finding = "C19:fused_matmul:FusedMatMulTranspose:transA!=transB" if (tA != tB and (rx, ry) == (2, 2) and perm != [0, 1]) else None
         fired, m2 = probe(st, fam, M.transpose_matmul_model(p), fn, p, expect=None, finding=finding,
                           cls=(fam, "output", mm, tA, tB, "absent" if perm is None else tuple(perm), rx, ry))
@@ -781,6 +803,15 @@ def fam_rotary(st):
         rank, d1 = 4, H
         if std:
             p = dict(dtype=dt, xshape=[B, H, S, D], fshape=[B, S, h], slices=slices)
+            bk = rng.randrange(5)
+            if bk == 0:
+                p["fshape"] = [1, S, h]                                   # batch broadcast in the pattern (the fixed finding's class)
+            elif bk == 1:
+                p.update(decl_xshape=["B", H, S, D], decl_fshape=["B", S, h])     # one named symbol: provably equal
+            elif bk == 2:
+                p.update(decl_xshape=["B", H, S, D], decl_fshape=["Bf", S, h])    # two symbols
+            elif bk == 3:
+                p.update(decl_xshape=[None, H, S, D], decl_fshape=[None, S, h])   # unnamed dims: never provably equal
             g = M.rotary23_model(p)
             fn, fused, dom = f_rot23, "RotaryEmbedding", ""
         else:
@@ -804,10 +835,19 @@ def fam_rotary(st):
             if a.get("interleaved") != 0:
                 ctx.tie_broken("correspondence", f"{fam}:interleaved", f"{p}: {a}")
         st.add_case("rot", f"CRot {cnat(rank)} {copt(d1, cz)} (Some {cz(D)}) {cz(slices[0])} {cz(slices[1])} {cz(slices[2])} {cz(slices[3])} {copt(obs, cz)}", (fam, p, obs))
+        if std and fired:
+            def code(d, names={}):
+                return d if isinstance(d, int) else (-1 if d is None else names.setdefault(d, -2 - len(names)))
+            names = {}
+            fcodes = [code(d, names) for d in p.get("decl_fshape", p["fshape"])]
+            xb = code(p.get("decl_xshape", p["xshape"])[0], names)
+            expanded = bool(find(m2, "Expand"))
+            st.add_case("rot", f"CRopeExpand @rope23_repaired@ (Some {clist(fcodes, cz)}) {cz(xb)} {cbool(expanded)}", (fam, p, expanded))
     # finding: freqs with batch 1 broadcast against x with batch > 1 (opset-23 op wants caches of x's batch)
     p = dict(dtype="float32", xshape=[2, 4, 3, 8], fshape=[1, 3, 4])
-    probe(st, "rules.fusion:rotary_embedding", M.rotary23_model(p), f_rot23, p,
-          finding="C19:rules.fusion:rotary_embedding:freqs-batch-broadcast", cls=("rot23", "finding"))
+    f_, m2_ = probe(st, "rules.fusion:rotary_embedding", M.rotary23_model(p), f_rot23, p,
+                    finding="C19:rules.fusion:rotary_embedding:freqs-batch-broadcast", cls=("rot23", "finding"))
+    st.flags["rope23_repaired"] = bool(f_ and find(m2_, "Expand"))      # the witness of C19_rope23_as_read_refuted decides the variant
     p = dict(domain="ms", dtype="float32", B=2, H=4, S=3, D=8, r=4, num_heads_absent=True)
     probe(st, "partial_rotary_embedding", M.partial_rotary_model(p), f_prot, p,
           finding="C19:partial_rotary_embedding:num_heads-absent", cls=("partial", "finding"))
@@ -818,7 +858,7 @@ def fam_rotary(st):
         B, H, S = rng.randrange(1, 3), rng.randrange(1, 4), rng.randrange(1, 4)
         D = pick(rng, [4, 8, 16])
         r = pick(rng, [x for x in (2, 4, 8, 16) if x <= D])
-        p = dict(domain="" if std else "ms", dtype="float32", B=B, H=H, S=S, D=D, r=r)
+        p = dict(domain="" if std else "ms", dtype=pick(rng, ["float32", "float32", "float16"]), B=B, H=H, S=S, D=D, r=r)
         near = None
         u = rng.random()
         il = None
@@ -1242,6 +1282,18 @@ def run(ctx):
     coq_correspondence(st)
     total_fired = sum(d.get("fired", 0) for d in st.stats.values())
     ctx.cover(repaired_variants={k: bool(v) for k, v in sorted(st.flags.items())})
+    ctx.cover(per_dtype_instances_fired={f: {d: {"instances": v[0], "fired": v[1]} for d, v in sorted(dd.items())} for f, dd in sorted(st.by_dtype.items())},
+              tolerances={"float32": "rtol 1e-4, atol 1e-5 x output magnitude (stricter than the repo's own tests: rtol = atol = 1e-3 in ort_fusions/_test_utils.assert_allclose)",
+                          "float16": "rtol 1e-2, atol 1e-3 x output magnitude (the float16 analogue: 1e-3 is one float16 ulp at 1.0, the repo has no float16 numeric test)",
+                          "pipeline / gqa / repo models": "slack x2 - x10, i.e. up to the repo's rtol = atol = 1e-3"},
+              float32_only_families={"gqa / gqa_rule": "the repo's Phi-style block builder and the CPU GroupQueryAttention kernel with past are float32 here",
+                                     "pipeline:repo-model": "the repo's cut-out models are float32"})
+    for fam_, dd in st.by_dtype.items():
+        fired16 = dd.get("float16", [0, 0])
+        if fam_.startswith(("gqa", "pipeline:repo")) or fam_ in ("softmax",):
+            continue
+        if dd.get("float32", [0, 0])[0] >= 6 and fired16[0] == 0:
+            ctx.tie_broken("harness", f"generator-degenerate:{fam_}:float16", f"no float16 instance of {fam_}: {dd}")
     ctx.cover(families=st.stats, fired_total=total_fired,
               structural_only=sorted(st.structural_only),
               executable_fused_ops=["SimplifiedLayerNormalization", "RMSNormalization", "LayerNormalization", "SkipSimplifiedLayerNormalization",
